@@ -84,7 +84,7 @@ def solve_shape(shape, v0, v1, x0, x1, k, rlo, real):
 
 
 @st.composite
-def dep_spec(draw, family, pname, x0, x1, nontrivial=True):
+def dep_spec(draw, family, pname, x0, x1, nontrivial=True, saturating_only=False):
     rlo, rhi = fam.PARAM_RANGE[family][pname]
     real = (family, pname) in fam.REAL_PARAMS
     log = not real
@@ -106,6 +106,16 @@ def dep_spec(draw, family, pname, x0, x1, nontrivial=True):
     k = draw(st.floats(0, 1))
     if v0 == v1:
         shape = "const1"
+    elif saturating_only:
+        # the variable is itself a conditioner: keep its parameters bounded for every conditioning
+        # value (an unbounded scale two levels deep overflows: exp(exp(x)))
+        if x0 != 0:
+            cands = ["logistics4"]
+        elif v1 > v0:
+            cands = ["logistics4", "exp3_sat", "asymdecrease3"]
+        else:
+            cands = ["logistics4", "exp3", "asymdecrease3"]
+        shape = draw(st.sampled_from(cands))
     elif real:
         cands = list(REAL_ANY) if x0 == 0 else ["exp3", "linear2", "poly3", "logistics4"]
         if "lnsquare2" in cands and v1 < v0:
@@ -126,7 +136,7 @@ def dep_spec(draw, family, pname, x0, x1, nontrivial=True):
 
 
 @st.composite
-def conditional_level(draw, family, cond_idx, x0, x1, allow_chain=True, nontrivial=True):
+def conditional_level(draw, family, cond_idx, x0, x1, allow_chain=True, nontrivial=True, saturating_only=False):
     names = list(fam.PARAM_RANGE[family].keys())
     # every non-empty subset may be dependent
     k = draw(st.integers(1, len(names)))
@@ -136,10 +146,11 @@ def conditional_level(draw, family, cond_idx, x0, x1, allow_chain=True, nontrivi
     fixed = {n: plausible[n] for n in names if n not in dep_names}
     dependent = {}
     for n in dep_names:
-        dependent[n] = draw(dep_spec(family, n, x0, x1, nontrivial=nontrivial))
+        dependent[n] = draw(dep_spec(family, n, x0, x1, nontrivial=nontrivial, saturating_only=saturating_only))
     # chained dependence function (alpha3 style): scale parameter depends on the shape's function
     if (
         allow_chain
+        and not saturating_only
         and x0 == 0
         and family in ("ExponentiatedWeibull", "Weibull")
         and "alpha" in dependent
@@ -201,7 +212,7 @@ def model_spec(
                 x0 = 0.0  # non-negative conditioner: dependence functions are evaluated from 0 on
             if not (x1 > x0 + 1e-6):
                 x1 = x0 + 1.0
-            lvl = draw(conditional_level(family, co[i], float(x0), float(x1), allow_chain=allow_chain, nontrivial=nontrivial))
+            lvl = draw(conditional_level(family, co[i], float(x0), float(x1), allow_chain=allow_chain, nontrivial=nontrivial, saturating_only=is_cond))
         spec.append(lvl)
         rng = refmodel.approx_range(spec)
     return spec
